@@ -172,8 +172,8 @@ def run_unit(name, thorough=False, use_cache=True):
     elif len(vac_hit) != len(vac_lines):
         out["status"] = "undecided"
         out["reason"] = "vacuity guard: %d of %d must-fail probes verified (contradictory contract or axioms)" % (len(vac_lines) - len(vac_hit), len(vac_lines))
-    elif res["summary"]["results"].get("verified", 0) == 0:
-        out["status"] = "undecided"; out["reason"] = "zero verified functions"
+    elif res["summary"]["results"].get("verified", 0) + res["summary"]["results"].get("errors", 0) == 0:
+        out["status"] = "undecided"; out["reason"] = "zero functions checked"
     elif out["failures"]:
         out["status"] = "failed"
     else:
